@@ -573,8 +573,9 @@ def evaluate(rep, orc, stage, seqs, results):
         orc.run(ops, res)
         for (sig, what, vops) in orc.violations[before:]:
             rep.violation(sig, what, {"ops": vops})
-        if stage in ("state-machine", "random") and len(rep.samples) < 6 and nontriv and len(ops) >= 5:
-            rep.sample({"stage": stage, "ops": ops, "results": res})
+        if nontriv and len(ops) >= 5 and rep.dist.get("sampled:" + stage, 0) < 1:
+            rep.count("sampled:" + stage)
+            rep.sample({"stage": stage, "ops": [o[:120] for o in ops[:12]], "results": [r[:160] for r in res[:12]]})
 
 
 def run_with_restart(pool, prefix, probes, chunk):
